@@ -42,7 +42,7 @@ LEAN_KEYWORDS = {'end', 'from', 'at', 'fun', 'do', 'then', 'else', 'open', 'in',
                  'section', 'let', 'have', 'show', 'if', 'match', 'with', 'where', 'def', 'theorem', 'variable',
                  'universe', 'import', 'mutual', 'structure', 'inductive', 'deriving', 'abbrev', 'by', 'return',
                  'for', 'unless', 'try', 'catch', 'finally', 'macro', 'syntax', 'local', 'prefix', 'infix', 'notation',
-                 'Type', 'Prop', 'Sort', 'self_'}
+                 'Type', 'Prop', 'Sort', 'self_', 'matches', 'using', 'from', 'extends', 'private', 'protected'}
 # names of the support library / Lean core a Python local must not shadow silently
 RESERVED = {'len', 'slice', 'sorted', 'flatten', 'append', 'max', 'min', 'pure', 'tol', 'K', 'pmod', 'getItem', 'setItem'}
 
@@ -1154,6 +1154,56 @@ def check_class_attrs(cls):
             raise Untranslatable('alias %s = %r' % (k, got.get(k)))
 
 
+def check_module_env(tree, cls):
+    """The names the method bodies take from module level must be what the translation assumes: the stdlib
+    `bisect` functions, numpy as `np`, the package's `state` module — and nothing else at module level may rebind
+    them or patch the class afterwards."""
+    if cls.bases or cls.keywords or cls.decorator_list:
+        raise Untranslatable('class BSplineBasis has base classes / keywords / decorators')
+    seen = {}
+    for n in tree.body:
+        if isinstance(n, ast.Expr) and isinstance(n.value, ast.Constant):
+            continue
+        if isinstance(n, ast.Import):
+            for a in n.names:
+                seen[a.asname or a.name.split('.')[0]] = ('import', a.name)
+            continue
+        if isinstance(n, ast.ImportFrom):
+            for a in n.names:
+                seen[a.asname or a.name] = ('from', '.' * n.level + (n.module or ''), a.name)
+            continue
+        if isinstance(n, ast.Assign) and len(n.targets) == 1 and isinstance(n.targets[0], ast.Name) \
+                and n.targets[0].id == '__all__':
+            continue
+        if n is cls:
+            continue
+        raise Untranslatable('module-level statement other than imports / __all__ / class BSplineBasis: %s'
+                             % ast.unparse(n)[:60])
+    want = {'bisect_left': ('from', 'bisect', 'bisect_left'), 'bisect_right': ('from', 'bisect', 'bisect_right'),
+            'np': ('import', 'numpy'), 'state': ('from', '.', 'state'), 'copy': ('import', 'copy')}
+    for k, v in want.items():
+        if seen.get(k) != v:
+            raise Untranslatable('module-level name %s is bound by %r, expected %r' % (k, seen.get(k), v))
+    for k in seen:
+        if k in ('len', 'abs', 'float', 'int', 'max', 'min', 'range', 'list', 'slice', 'type', 'ValueError', 'TypeError',
+                 'RuntimeError', 'NotImplemented', 'IndexError', 'BSplineBasis'):
+            raise Untranslatable('module-level import rebinds the builtin / class name %s' % k)
+    for n in cls.body:
+        if isinstance(n, ast.FunctionDef) and n.decorator_list:
+            raise Untranslatable('method %s is decorated' % n.name)
+        if isinstance(n, (ast.AsyncFunctionDef, ast.ClassDef)):
+            raise Untranslatable('nested class / async method %s' % n.name)
+        if isinstance(n, (ast.Assign, ast.AnnAssign, ast.AugAssign)):
+            tg = n.targets if isinstance(n, ast.Assign) else [n.target]
+            for t in tg:
+                if isinstance(t, ast.Name) and t.id in {py_name(k) for k in ORDER}:
+                    raise Untranslatable('class-level assignment rebinds the method %s' % t.id)
+    names = [n.name for n in cls.body if isinstance(n, ast.FunctionDef)]
+    for k in {py_name(k) for k in ORDER}:
+        if names.count(k) > 1:
+            raise Untranslatable('method %s is defined twice' % k)
+
+
 def translate(src, only=None, stub=()):
     """Returns {'lean': text, 'methods': {key: {'ok', 'detail', 'lean_name', 'lines': (first, last)}}, 'digest'}.
     `stub`: keys whose definition is to be left out (used after a generated definition failed to elaborate)."""
@@ -1165,6 +1215,11 @@ def translate(src, only=None, stub=()):
         check_class_attrs(cls)
     except Untranslatable as e:
         class_err = str(e)
+    env_err = None
+    try:
+        check_module_env(tree, cls)
+    except Untranslatable as e:
+        env_err = str(e)
     fns = {n.name: n for n in cls.body if isinstance(n, ast.FunctionDef)}
     parts = [HEADER]
     nlines = HEADER.count('\n')
@@ -1180,6 +1235,10 @@ def translate(src, only=None, stub=()):
         node = fns.get(py_name(key))
         if node is None:
             info['detail'] = 'method %s not found in class BSplineBasis' % py_name(key)
+            failed.add(key)
+            continue
+        if env_err:
+            info['detail'] = env_err
             failed.add(key)
             continue
         if class_err and SIGS[key].get('ctor'):
